@@ -93,6 +93,9 @@ func (r *weightsRunner) run(cmd *cobra.Command, args []string) {
 }
 
 func (r *weightsRunner) execute(cmd *cobra.Command, args []string) error {
+	if r.digits > flags.MaxDigits {
+		return fmt.Errorf("--digits: %d exceeds the maximum of %d", r.digits, flags.MaxDigits)
+	}
 	ctx := cmd.Context()
 	reg := registry.New()
 	var universe performance.Universe
